@@ -155,6 +155,9 @@ class LiveDispatcher(CallbackBase):
             )
             # Store information about our descriptors
             desc = dict(desc)
+            # A descriptor that the schema rejects is never sent: do not
+            # remember it as sent
+            schema_validators[DocumentNames.descriptor].validate(desc)
             if stream_name not in self._descriptors:
                 self._descriptors[stream_name] = dict()  # noqa: C408
             self._descriptors[stream_name][desc_id] = desc
@@ -164,8 +167,7 @@ class LiveDispatcher(CallbackBase):
         # Clean the Event document produced by graph network. The data is left
         # untouched, but the relevant uids, timestamps, seq_num are modified so
         # that this event is not confused with the raw data stream
-        self.seq_count += 1
-        self._seq_counts[stream_name] = self._seq_counts.get(stream_name, 0) + 1
+        seq_num = self._seq_counts.get(stream_name, 0) + 1
         desc_uid = self._descriptors[stream_name][desc_id]["uid"]
         current_time = ttime.time()
         evt = ChainMap(
@@ -173,13 +175,20 @@ class LiveDispatcher(CallbackBase):
                 "uid": new_uid(),
                 "descriptor": desc_uid,
                 "timestamps": dict((key, current_time) for key in doc["data"].keys()),  # noqa: C402
-                "seq_num": self._seq_counts[stream_name],
+                "seq_num": seq_num,
                 "time": current_time,
             },
             doc,
         )
+        evt = dict(evt)
+        # An event that the schema rejects is never sent and must not use up a
+        # sequence number. Once it is valid it counts as emitted, whatever
+        # happens in the subscribers: advance the tallies before sending it.
+        schema_validators[DocumentNames.event].validate(evt)
+        self.seq_count += 1
+        self._seq_counts[stream_name] = seq_num
         # Emit the event document
-        self.emit(DocumentNames.event, dict(evt))
+        self.emit(DocumentNames.event, evt)
 
     def stop(self, doc, _md=None):
         """Receive a raw stop document, re-emit it for the modified stream"""
